@@ -16,8 +16,14 @@ pub(crate) struct CounterGuard {
 
 impl Drop for CounterGuard {
     fn drop(&mut self) {
+        #[cfg(eigerco_lumina_verif)]
+        crate::verif::trackers::sched_point("counter.drop.0");
         self.counter.take();
+        #[cfg(eigerco_lumina_verif)]
+        crate::verif::trackers::sched_point("counter.drop.1");
         self.notify.notify_waiters();
+        #[cfg(eigerco_lumina_verif)]
+        crate::verif::trackers::sched_point("counter.drop.2");
     }
 }
 
@@ -30,6 +36,8 @@ impl Counter {
     }
 
     pub(crate) fn guard(&self) -> CounterGuard {
+        #[cfg(eigerco_lumina_verif)]
+        crate::verif::trackers::sched_point("counter.guard");
         CounterGuard {
             counter: Some(self.counter.clone()),
             notify: self.notify.clone(),
@@ -38,12 +46,24 @@ impl Counter {
 
     /// Wait all guards to drop.
     pub(crate) async fn wait_guards(&mut self) {
+        #[cfg(eigerco_lumina_verif)]
+        crate::verif::trackers::sched_point("counter.wait.0");
         let mut notified = pin!(self.notify.notified());
+        #[cfg(eigerco_lumina_verif)]
+        crate::verif::trackers::sched_point("counter.wait.1");
 
         while Arc::strong_count(&self.counter) > 1 {
+            #[cfg(eigerco_lumina_verif)]
+            crate::verif::trackers::sched_point("counter.wait.2");
             notified.as_mut().await;
+            #[cfg(eigerco_lumina_verif)]
+            crate::verif::trackers::sched_point("counter.wait.3");
             notified.set(self.notify.notified());
+            #[cfg(eigerco_lumina_verif)]
+            crate::verif::trackers::sched_point("counter.wait.1");
         }
+        #[cfg(eigerco_lumina_verif)]
+        crate::verif::trackers::sched_point("counter.wait.done");
     }
 }
 
@@ -85,5 +105,48 @@ mod tests {
 
         let elapsed = now.elapsed();
         assert!(elapsed >= Duration::from_millis(200) && elapsed < Duration::from_millis(300));
+    }
+}
+
+/// Verification hooks (compiled only with `--cfg eigerco_lumina_verif`).
+#[cfg(eigerco_lumina_verif)]
+pub(crate) mod verif_hooks {
+    use super::*;
+    use std::sync::Weak;
+
+    /// Public wrapper of the crate-private [`Counter`].
+    pub struct VCounter(Counter);
+
+    /// Public wrapper of the crate-private [`CounterGuard`]; dropping it drops the guard.
+    pub struct VCounterGuard(#[allow(dead_code)] CounterGuard);
+
+    /// Observes the number of live guards without holding a strong reference.
+    #[derive(Clone)]
+    pub struct VCounterObserver(Weak<()>);
+
+    impl VCounter {
+        #[allow(clippy::new_without_default)]
+        pub fn new() -> VCounter {
+            VCounter(Counter::new())
+        }
+
+        pub fn guard(&self) -> VCounterGuard {
+            VCounterGuard(self.0.guard())
+        }
+
+        pub async fn wait_guards(&mut self) {
+            self.0.wait_guards().await
+        }
+
+        pub fn observer(&self) -> VCounterObserver {
+            VCounterObserver(Arc::downgrade(&self.0.counter))
+        }
+    }
+
+    impl VCounterObserver {
+        /// Number of live guards (`strong_count - 1`), 0 once the counter itself is gone.
+        pub fn guards(&self) -> usize {
+            self.0.strong_count().saturating_sub(1)
+        }
     }
 }
